@@ -66,6 +66,17 @@ CLAIMED = {
              "holder: the literal property is violated by MsgBurnNative of tf denoms by non-admin holders.",
         technique="Lean 4 proof (guard/effect case analysis, induction over histories) + differential correspondence",
         ref="§7 C15"),
+    "C16": dict(
+        text="Lean 4 theorems over an executable model of x/sudo and the four gated entry points: a gated operation is accepted iff the "
+             "sender is a currently listed contract or the current root (as addresses), at the time of the call over any history; only "
+             "the root changes the contract list or hands the role over; removed contracts and former roots lose access; an accepted "
+             "gated operation writes exactly its own store; rejected messages change nothing. T1 facts regenerated on every run pin the "
+             "set of functions consulting CheckPermissions, that the check precedes the first store write, and the root checks of "
+             "EditSudoers/ChangeRoot. Correspondence on the real msg servers.",
+        note="Trusted: Lean kernel; harness; extractor. Authz wrapping is decided in the message-tree model. One genuine defect was found "
+             "and repaired (fix: commit 9caae2d: stored root compared as a string).",
+        technique="Lean 4 proof (guard/effect case analysis) + regenerated facts + differential correspondence",
+        ref="§7 C16"),
 }
 
 PENDING_REASON = "not claimed yet: model/proofs for this property are still being built (see DESIGN.md §9 build order)"
